@@ -15,6 +15,8 @@ driver harness/cmd/vd-codec (c01).
 def run(ctx):
     q = ctx.quick
     b = ctx.build("vd-codec")
+    if ctx.replay:
+        return _replay(ctx, b)
     rows = ctx.gen("CodecTable", "CodecTable_quick.cfg" if q else "CodecTable_thorough.cfg", "ROW",
                    workers=ctx.cores, timeout=2400, heap="12g")
     nprog = sum(1 for r in rows if r["kind"] == "prog")
@@ -59,3 +61,20 @@ def _slim(r):
         if k in s and len(s[k]) > 12:
             s[k] = s[k][:12] + ["..."]
     return s
+
+
+def _replay(ctx, b):
+    """bin/vcheck C01 --replay <file>: re-runs the single table row stored in a violation record on the real code."""
+    import json
+    rec = json.load(open(ctx.replay))
+    row = rec["replay"]["row"]
+    out = ctx.driver(b, ["c01"], input_obj=[row])
+    for o in out:
+        if o.get("summary"):
+            continue
+        if o.get("viol"):
+            ctx.violation(o["viol"], o["detail"], replay={"kind": "c01-row", "row": row})
+    ctx.sample({"replayed": str(row)[:400]})
+    ctx.cov["evaluations"] = 1
+    ctx.cov["distinct_nontrivial"] = 2
+    return ctx.finish(rule="replay of one stored table row")
